@@ -493,8 +493,12 @@ def _copy_nested_core(A: Analysis, col: Collector, rule: str):
     # memo per fileset
     memo_get = any(isinstance(n, ast.Return) and isinstance(n.value, ast.Subscript) and norm(n.value) == "cache[fileset]" for n in walk_own(cf.node))
     memo_set = any(isinstance(n, ast.Assign) and norm(n.targets[0]) == "cache[fileset]" for n in walk_own(cf.node))
-    if memo_get and memo_set:
-        col.ok(rule, "a file-set appearing several times is copied once (cache[fileset])", A.loc(cf.node))
+    memo_defs = [n for n in walk_own(cn.node) if isinstance(n, (ast.Assign, ast.AnnAssign)) and norm(n.targets[0] if isinstance(n, ast.Assign) else n.target) == "cache"]
+    memo_local = bool(memo_defs) and all(isinstance(n.value, ast.Dict) and not n.value.keys or (isinstance(n.value, ast.Call) and dotted(n.value.func) == "dict" and not n.value.args) for n in memo_defs)
+    if memo_get and memo_set and not memo_local:
+        col.fail(rule, cn.qualname, "fileset-memo-shared-across-calls", "the per-file-set memo of copy_nested_files is not a fresh dict of the call (it can be handed in / shared): a file-set staged for one field with one copy mode is re-used for another field that asked for a different mode (e.g. a link is handed to a field declared copy)", A.loc(memo_defs[0]) if memo_defs else A.loc(cn.node))
+    elif memo_get and memo_set:
+        col.ok(rule, "a file-set appearing several times is copied once (cache[fileset]); the memo is local to one call (one mode / collation)", A.loc(cf.node))
     else:
         col.fail(rule, cf.qualname, "fileset-memo", "copy_fileset no longer memoises per file-set: an object appearing twice is staged twice", A.loc(cf.node))
     # the shared set is created only when not supplied
